@@ -418,6 +418,8 @@ func genSource(kd *kind, cases []caseSpec) string {
 			fmt.Fprintf(&cs, "func Case%d() {\n\tRunChunk(%d, %d, %d, %d)\n}\n\n", i, c.N, c.Lo, c.Hi, c.Bl)
 		}
 	}
+	// no-op case: instantiates the module outside the per-case horizons
+	fmt.Fprintf(&cs, "func Case%d() {\n\tinitKeys()\n}\n", len(cases))
 	s := tmpl
 	for _, r := range [][2]string{
 		{"@IMPORTS@", imps.String()}, {"@DECLS@", kd.Decls}, {"@K@", strconv.Itoa(kd.K())}, {"@NV@", strconv.Itoa(kd.NV)},
@@ -451,7 +453,7 @@ func runPrograms(r *mc.Run, pool *mc.Pool, ps []*program, horizon func(c caseSpe
 		for _, c := range p.cases {
 			hz = max(hz, horizon(c))
 		}
-		hp[i] = &hrun.Program{Src: p.src, N: len(p.cases), Horizon: hz}
+		hp[i] = &hrun.Program{Src: p.src, N: len(p.cases) + 1, Warm: true, Horizon: hz}
 	}
 	hrun.Run(r, pool, hp, stopFirst, !stopFirst)
 	for i, p := range ps {
@@ -873,17 +875,16 @@ func main() {
 	sort.SliceStable(bad, func(i, j int) bool { return bad[i].less(bad[j]) })
 	seen := map[string]bool{}
 	var sel []badRange
+	perKind := map[string]int{}
+	const maxRefinePerKind = 6
 	for _, b := range bad {
 		k := b.kd.Name + "|" + b.hint
-		if seen[k] {
+		if seen[k] || perKind[b.kd.Name] >= maxRefinePerKind {
 			continue
 		}
 		seen[k] = true
+		perKind[b.kd.Name]++
 		sel = append(sel, b)
-	}
-	const maxRefine = 64
-	if len(sel) > maxRefine {
-		sel = sel[:maxRefine]
 	}
 	r.Extra("bad_blocks", len(bad))
 	r.Extra("refined_blocks", len(sel))
